@@ -156,6 +156,7 @@ def live_peer_never_dropped(fl: int, ws: int, ci: int, d1: int, d2: int, s: int,
     """
     pre: fl == P.FL and 0 <= ws <= 1 and ci == P.C and 0 <= d1 <= CFG[P.C][1] and 0 <= d2 <= CFG[P.C][1] and 0 <= s <= CFG[P.C][0] + CFG[P.C][1]
     pre: do_send or s == 0
+    pre: CFG[P.C][1] <= 5 or (d1 % 5 == 0 and d2 % 10 == 0 and s % 5 == 0)
     post: _ == ''
     """
     return verdict(untraced(_live_peer, fl, ws, ci, d1, d2, s, monitor, do_send))
